@@ -439,7 +439,13 @@ parsefeatures:
 
 			// Always add the feature to the list of features, even if we don't
 			// support it, it just won't contain any parse output.
-			s.features[tok.Name.Space] = nil
+			// The list is keyed by namespace: an element that shares its namespace
+			// with a feature of this list that was already parsed must not wipe out
+			// the parse output that will be handed to that feature's Negotiate
+			// function.
+			if _, parsed := sf.cache[tok.Name.Space]; !parsed {
+				s.features[tok.Name.Space] = nil
+			}
 
 			feature, ok := getFeature(tok.Name, features)
 			if ok {
